@@ -105,6 +105,16 @@ def run(p):
             dev = max(abs(Fraction(getattr(t2, f)) - e) for f, e in zip(P7, exp))
             p.check(dev <= Fraction(50001, 10 ** 13), 'add:params', 'add', inp, [getattr(t2, f) for f in P7],
                     [float(e) for e in exp], call)
+            # the augmented spelling on a name bound to the constant: the NAME is rebound to the moved set, the constant stays
+            u = t
+            try:
+                u += d
+                okv = isinstance(u, K.Transformation) and u is not t and [getattr(u, f) for f in P7 + R7] == [getattr(t2, f) for f in P7 + R7] \
+                    and u.ref_epoch == d
+                p.check(okv, 'add:params', 'add', inp + ['+='], [iso(u.ref_epoch)] + [getattr(u, f) for f in P7 + R7],
+                        [d.isoformat()] + [getattr(t2, f) for f in P7 + R7], f't = geodepy.constants.{name}; t += {d!r}')
+            except Exception as ex:  # noqa
+                p.violation('add:raises', 'add', inp + ['+='], f'{type(ex).__name__}: {ex}', 'the moved set', f't = geodepy.constants.{name}; t += {d!r}')
             # the shipped constant is not modified
             now = [t.from_datum, t.to_datum, iso(t.ref_epoch)] + [getattr(t, f) for f in P7 + R7]
             p.check(now == snapshot[name], 'add:mutates', 'add', inp, now, snapshot[name], call)
